@@ -124,6 +124,8 @@ pub fn run(run: &mut Run) {
     run.assumptions = vec!["fully transparent pixels compare equal regardless of RGB (the repository's image equivalence)".into()];
     let (lanes, cases) = if run.thorough() { (16, 30000) } else { (16, 5000) };
     run_tapes(run, lanes, cases, 1200, &check);
+    // thorough only: coverage-guided search over generator tapes with the same oracle
+    crate::fuzzstage::fuzz_tapes(run, 1200, 120);
 }
 
 pub fn replay(case: &serde_json::Value) -> CheckResult {
